@@ -332,7 +332,7 @@ func dispatch(op Op) (interface{}, error) {
 			}
 			var agesOut []age
 			for _, a := range ages {
-				agesOut = append(agesOut, age{a.EntityName, a.Age.Format("2006-01-02")})
+				agesOut = append(agesOut, age{a.EntityName, a.Age.Format("2006-01-02T15:04:05.000000000Z07:00")})
 			}
 			return map[string]interface{}{
 				"commits":   json.RawMessage(commitsJSON),
